@@ -98,6 +98,8 @@ class Machine:
         self.regions_cache = {}
         self.calls_seen = []
         self.cpu_obj = Obj('cpu', '__cpu_model', 16)
+        self.trace_names = set()
+        self.trace = []
         self.assumed = set()     # data-dependent sanity checks of table contents assumed to pass (abort() on the other side)
         if not ASM_MODELS and lib.meta.get('asm'):
             from .asm import load_models
@@ -391,6 +393,8 @@ class Machine:
     def call(self, f, args, loc=None):
         if len(self.stack) > 200:
             raise Unsupported('call depth exceeded in ' + f.name)
+        if self.trace_names and f.name in self.trace_names:
+            self.trace.append((f.name, tuple(args), tuple(self.stack)))
         t = self.trusted.get(f.name)
         if t is not None:
             return t(self, f, args, loc)
